@@ -87,3 +87,9 @@ def replay(cex):
 
 def finding_key(cex):
     return "seq:" + cex["seq"]
+
+
+def fallback(item):
+    N = item["N"]
+    hist = [["get_linear_NCPR", [2]], ["get_linear_FCR", [2]], ["get_linear_sigma", [2]], ["get_countNeg", []], ["get_phasePlotRegion", []]] if N >= 2 else []
+    return [dict(seq=q, prelude=std_prelude(N), history=hist) for q in fallback_seqs(item)]
